@@ -44,10 +44,17 @@ impl Script {
 #[derive(Debug)]
 pub struct TimerBudget;
 
+/// Unwinding payload of an injected timer fault: the timer closure panics once, at one chosen
+/// reading (a timer is user code: it may fail), and works again afterwards.
+#[derive(Debug)]
+pub struct TimerFault;
+
 struct Inner {
     script: Script,
     cursor: AtomicUsize,
     budget: usize,
+    /// index of the reading at which the timer panics once (usize::MAX = never)
+    fault_at: usize,
 }
 
 /// `Fn() -> u64 + Send + Sync + Clone`. Clones share the cursor (like a real clock).
@@ -56,7 +63,10 @@ pub struct ScriptTimer(Arc<Inner>);
 
 impl ScriptTimer {
     pub fn new(script: Script, budget: usize) -> ScriptTimer {
-        ScriptTimer(Arc::new(Inner { script, cursor: AtomicUsize::new(0), budget }))
+        ScriptTimer(Arc::new(Inner { script, cursor: AtomicUsize::new(0), budget, fault_at: usize::MAX }))
+    }
+    pub fn with_fault(script: Script, budget: usize, fault_at: usize) -> ScriptTimer {
+        ScriptTimer(Arc::new(Inner { script, cursor: AtomicUsize::new(0), budget, fault_at }))
     }
     pub fn reads(&self) -> usize {
         self.0.cursor.load(Ordering::SeqCst)
@@ -65,6 +75,9 @@ impl ScriptTimer {
         let i = self.0.cursor.fetch_add(1, Ordering::SeqCst);
         if i >= self.0.budget {
             std::panic::panic_any(TimerBudget);
+        }
+        if i == self.0.fault_at {
+            std::panic::panic_any(TimerFault);
         }
         self.0.script.at(i)
     }
